@@ -3,9 +3,14 @@ module verif/harness
 go 1.23
 
 require (
+	github.com/absolute8511/redcon v0.9.3
+	github.com/absolute8511/redigo v1.4.6
 	github.com/anishathalye/porcupine v1.3.0
+	github.com/julienschmidt/httprouter v1.2.0
 	github.com/youzan/ZanRedisDB v0.0.0
+	github.com/youzan/go-zanredisdb v0.6.3
 	go.etcd.io/gofail v0.2.0
+	google.golang.org/grpc v1.9.2
 )
 
 require (
@@ -13,8 +18,6 @@ require (
 	github.com/absolute8511/go-hll v0.0.0-20190228064837-043118556d83 // indirect
 	github.com/absolute8511/hyperloglog v0.0.0-20171127080255-5259284545fc // indirect
 	github.com/absolute8511/hyperloglog2 v0.1.1 // indirect
-	github.com/absolute8511/redcon v0.9.3 // indirect
-	github.com/absolute8511/redigo v1.4.6 // indirect
 	github.com/beorn7/perks v1.0.1 // indirect
 	github.com/certifi/gocertifi v0.0.0-20200211180108-c7c1fbc02894 // indirect
 	github.com/cespare/xxhash/v2 v2.1.1 // indirect
@@ -38,7 +41,6 @@ require (
 	github.com/golang/snappy v0.0.2-0.20190904063534-ff6b7dc882cf // indirect
 	github.com/hashicorp/go-immutable-radix v1.3.0 // indirect
 	github.com/hashicorp/golang-lru v0.5.4 // indirect
-	github.com/julienschmidt/httprouter v1.2.0 // indirect
 	github.com/matttproud/golang_protobuf_extensions v1.0.1 // indirect
 	github.com/pkg/errors v0.9.1 // indirect
 	github.com/prometheus/client_golang v1.3.0 // indirect
@@ -52,7 +54,6 @@ require (
 	github.com/twmb/murmur3 v1.1.5 // indirect
 	github.com/ugorji/go v0.0.0-20170107133203-ded73eae5db7 // indirect
 	github.com/xiang90/probing v0.0.0-20160813154853-07dd2e8dfe18 // indirect
-	github.com/youzan/go-zanredisdb v0.6.3 // indirect
 	github.com/youzan/gorocksdb v0.0.0-20201201080653-1a9b5c65c962 // indirect
 	go.uber.org/atomic v1.6.0 // indirect
 	go.uber.org/multierr v1.5.0 // indirect
@@ -62,7 +63,6 @@ require (
 	golang.org/x/sys v0.0.0-20200519105757-fe76b779f299 // indirect
 	golang.org/x/text v0.3.0 // indirect
 	google.golang.org/genproto v0.0.0-20180518175338-11a468237815 // indirect
-	google.golang.org/grpc v1.9.2 // indirect
 	gopkg.in/natefinch/lumberjack.v2 v2.0.0 // indirect
 )
 
